@@ -17,7 +17,7 @@ use crate::op_sequence::Sequence;
 use crate::op_unambiguous_repeat::UnambiguousRepeat;
 
 use crate::re_flags::ReFlags;
-use crate::re_matcher::ReMatcher;
+use crate::re_matcher::{GroupState, ReMatcher};
 
 pub(crate) const MATCHES_ZLS_AT_START: u32 = 1;
 pub(crate) const MATCHES_ZLS_AT_END: u32 = 2;
@@ -180,5 +180,46 @@ impl Iterator for ForceProgressIterator<'_> {
             self.current_pos = p;
         }
         p
+    }
+}
+
+// When a repeat has no further ways of matching, the engine backtracks to
+// before the repeat: the groups inside it must then hold again what they held
+// when the repeat was entered, not what its last abandoned iteration captured.
+pub(crate) struct RestoreGroupsIterator<'a> {
+    base: Box<dyn Iterator<Item = usize> + 'a>,
+    matcher: &'a ReMatcher<'a>,
+    saved: Option<GroupState>,
+}
+
+impl<'a> RestoreGroupsIterator<'a> {
+    pub(crate) fn wrap(
+        matcher: &'a ReMatcher<'a>,
+        saved: Option<GroupState>,
+        base: Box<dyn Iterator<Item = usize> + 'a>,
+    ) -> Box<dyn Iterator<Item = usize> + 'a> {
+        if saved.is_some() {
+            Box::new(Self {
+                base,
+                matcher,
+                saved,
+            })
+        } else {
+            base
+        }
+    }
+}
+
+impl Iterator for RestoreGroupsIterator<'_> {
+    type Item = usize;
+
+    fn next(&mut self) -> Option<Self::Item> {
+        let next = self.base.next();
+        if next.is_none() {
+            if let Some(saved) = self.saved.take() {
+                self.matcher.reset_group_state(saved);
+            }
+        }
+        next
     }
 }
